@@ -805,9 +805,160 @@ fn generate_homonyms(mut rng: Rng, seed: u64, tier: Tier, ptr: usize) -> Option<
     })
 }
 
+/// Writes every module's declaration order anew: by item index ascending (what an item embeds
+/// by value is declared before it, mostly), descending, or shuffled.
+fn redeclare(rng: &mut Rng, p: &mut Project, mode: usize) {
+    for m in 0..p.modules.len() {
+        let mut order: Vec<Decl> = vec![];
+        let mut idx: Vec<usize> = (0..p.items.len()).filter(|i| p.items[*i].module == m).collect();
+        if mode == 1 {
+            idx.reverse();
+        }
+        for i in idx {
+            order.push(Decl::Item(i));
+            if let ItemKind::Type { impl_funcs, .. } = &p.items[i].kind {
+                if !impl_funcs.is_empty() {
+                    order.push(Decl::Impl(i));
+                }
+            }
+        }
+        for k in 0..p.modules[m].extern_values.len() {
+            order.push(Decl::ExternValue(k));
+        }
+        if mode >= 2 {
+            rng.shuffle(&mut order);
+        }
+        p.modules[m].order = order;
+    }
+}
+
+/// "Definitions may appear in any order and in any module": the same items declared in
+/// another order, and spread over the modules differently, are the same program as far as
+/// resolution goes. All arrangements are accepted or all are rejected.
+fn generate_rearranged(mut rng: Rng, seed: u64, tier: Tier, ptr: usize) -> Case {
+    let p = gen_graph_project(&mut rng, tier, ptr);
+    let mut worlds = vec![World::from_files(ptr, p.files())];
+    let mut notes = vec![];
+    for mode in 0..2 {
+        let mut q = p.clone();
+        redeclare(&mut rng, &mut q, mode);
+        worlds.push(World::from_files(ptr, q.files()));
+    }
+    notes.push("arrangement:declaration_order".to_string());
+    let mut q = p.clone();
+    let nm = q.modules.len();
+    if nm > 1 {
+        for it in q.items.iter_mut() {
+            if rng.chance(1, 2) {
+                it.module = rng.below(nm);
+            }
+        }
+        // Modules import one another's items by name or wholesale, drawn anew.
+        for m in q.modules.iter_mut() {
+            m.type_imports = rng.chance(1, 2);
+        }
+        redeclare(&mut rng, &mut q, 2);
+        worlds.push(World::from_files(ptr, q.files()));
+        notes.push("arrangement:module_placement".to_string());
+    }
+    let mut builds = vec![];
+    for w in 0..worlds.len() {
+        for i in 0..2 {
+            builds.push(BuildSpec {
+                world: w,
+                entry: any_entry(&mut rng),
+                sched: SchedSpec {
+                    unresolved: if i == 0 {
+                        OrderSpec::Canonical
+                    } else {
+                        OrderSpec::Dynamic(rng.next_u64())
+                    },
+                    module_write: any_order(&mut rng),
+                    definitions: any_order(&mut rng),
+                },
+                repeat: 1,
+            });
+        }
+    }
+    Case {
+        property: "C10".into(),
+        family: "rearranged".into(),
+        seed,
+        worlds,
+        builds,
+        params: Params {
+            notes,
+            ..Default::default()
+        },
+    }
+}
+
+/// Worlds of a `rearranged` case: when the reference model gives the same answer for all of
+/// them (it does unless the arrangement changed what a name means), so does the build.
+fn same_items_same_verdict(
+    case: &Case,
+    results: &[Vec<RunResult>],
+    report: &mut crate::case::CaseReport,
+) -> Option<Verdict> {
+    let mut expect: Option<(bool, BTreeSet<String>)> = None;
+    for w in &case.worlds {
+        let parsed = parse_world(w).ok()?;
+        let m = Model::build(&parsed);
+        if !m.duplicates.is_empty() {
+            return None;
+        }
+        // Same short names declared, same verdict of the model, same unresolvable short names.
+        let short = |s: &String| s.rsplit("::").next().unwrap_or(s).to_string();
+        let sig = (
+            m.expects_error(),
+            m.decls.keys().map(short).chain(m.unresolvable.iter().map(|u| format!("!{}", short(u)))).collect::<BTreeSet<String>>(),
+        );
+        match &expect {
+            None => expect = Some(sig),
+            Some(e) if *e != sig => return None,
+            Some(_) => {}
+        }
+    }
+    report.count("oracle:same_items_rearranged", 1);
+    let mut seen: Option<(bool, usize, String)> = None;
+    for (bi, b) in case.builds.iter().enumerate() {
+        for r in &results[bi] {
+            let ok = match &r.outcome {
+                Outcome::Ok => true,
+                Outcome::Err(_) => false,
+                _ => return None,
+            };
+            match &seen {
+                None => seen = Some((ok, b.world, r.outcome.brief())),
+                Some((s, w0, brief)) if *s != ok => {
+                    if *w0 == b.world {
+                        return None; // order dependence within one world: C09's business
+                    }
+                    return Some(Verdict::violation(
+                        "verdict-depends-on-arrangement",
+                        format!(
+                            "the same items are {} as world {w0} and {} as world {} (declaration order / module placement differ): {} / {}",
+                            if *s { "accepted" } else { "rejected" },
+                            if ok { "accepted" } else { "rejected" },
+                            b.world,
+                            brief,
+                            r.outcome.brief()
+                        ),
+                    ));
+                }
+                Some(_) => {}
+            }
+        }
+    }
+    None
+}
+
 pub fn generate(seed: u64, tier: Tier) -> Case {
     let mut rng = Rng::new(seed);
     let ptr = if rng.chance(1, 2) { 4 } else { 8 };
+    if rng.chance(1, 8) {
+        return generate_rearranged(Rng::new(rng.next_u64()), seed, tier, ptr);
+    }
     if rng.chance(1, 6) {
         if let Some(c) = generate_homonyms(Rng::new(rng.next_u64()), seed, tier, ptr) {
             return c;
@@ -1241,6 +1392,11 @@ pub fn evaluate(
     }
     if case.family == "homonyms" && case.worlds.len() == 2 {
         if let Some(v) = same_graph_same_verdict(case, results, report) {
+            return v;
+        }
+    }
+    if case.family == "rearranged" && case.worlds.len() >= 2 {
+        if let Some(v) = same_items_same_verdict(case, results, report) {
             return v;
         }
     }
